@@ -159,6 +159,9 @@ class VLoop(asyncio.SelectorEventLoop):
         tick = int(round(base / GRID))
         if self.rank_mode == "reverse":
             return 500 - idx
+        if self.rank_mode == "perm":
+            import random
+            return random.Random(f"{self.rank_rng}:{t.get_name()}").randrange(1, 900)
         if self.rank_mode == "seeded":
             import random
             return random.Random(f"{self.rank_rng}:{t.get_name()}:{tick}").randrange(1, 900)
